@@ -2,7 +2,7 @@
    differential checks.  DEFINITIONS ONLY. *)
 From Coq Require Import Strings.Byte Strings.String Strings.Ascii.
 From Coq Require Import List NArith Bool Arith Floats.SpecFloat.
-From YV Require Import Show Wire Utf8 NumText Ast Scanner ParserRules Parser.
+From YV Require Import Show Wire Utf8 NumText Ast Scanner ParserRules Parser Pretty.
 Import ListNotations.
 Local Open Scope string_scope.
 
@@ -170,3 +170,20 @@ Definition run_parse (src : string) : string := show_presult (parse_source (list
 Definition run_parse_hex (hex : string) : string := show_presult (parse_source (bytes_of_hex hex)).
 Definition run_ast (src : string) : string := show_ast (parse_source (list_byte_of_string src)).
 Definition run_tokens (src : string) : string := show_tokens (scan_all (list_byte_of_string src)).
+
+(* round trip through the pretty printer (ASTs compared through their rendering) *)
+Definition roundtrip_check (src : list byte) : string :=
+  match parse_source src with
+  | POk p =>
+    let src' := pretty_program p in
+    let r' := parse_source src' in
+    if String.eqb (show_ast (POk p)) (show_ast r') then "RT-OK"
+    else "RT-FAIL " ++ esc_bytes true src' ++ " => " ++ show_presult r'
+  | _ => "SKIP"
+  end.
+Definition run_roundtrip_hex (hex : string) : string := roundtrip_check (bytes_of_hex hex).
+Definition run_pretty (src : string) : string :=
+  match parse_source (list_byte_of_string src) with
+  | POk p => string_of_list_byte (pretty_program p)
+  | r => show_presult r
+  end.
